@@ -29,6 +29,7 @@ FRAGMENT_CODES = {'VFS_LOOKUP', 'TRACE_STRING_GLOBAL', 'TRACE_STRING_THREADNAME'
 
 class InvariantLog:
     evaluations = 0
+    paused = False
     not_applicable = 0
     failures = []
 
@@ -36,6 +37,8 @@ class InvariantLog:
 def windows_well_formed(self):
     """Class invariant: every open window is non-empty, starts with a START of the key's code on the key's thread,
     holds only that thread's events and no END of its own code.  Records and returns True."""
+    if InvariantLog.paused:          # the 2^20 rungs have their own linear oracle (huge_windows)
+        return True
     InvariantLog.evaluations += 1
     for table_name in ('on_going_events', 'on_going_traces'):
         table = getattr(self, table_name, None)
@@ -326,7 +329,7 @@ def random_histories(res, ctx, rng):
 def long_windows(res, ctx, rng):
     """Windows holding hundreds to thousands of same-thread events (a long-running call)."""
     inv = H.inventory()
-    ladder = [n for i, n in enumerate(ctx.pick(H.SCALE_RUNGS_QUICK, H.SCALE_RUNGS_THOROUGH)) if ctx.mine(i)]
+    ladder = [n for i, n in enumerate(ctx.pick(H.SCALE_RUNGS_QUICK, H.SCALE_RUNGS_THOROUGH)) if ctx.mine(i) and n <= 200000]
     for it in range(ctx.pick(6, 60) + len(ladder)):
         outer = rng.choice(inv['bsd'])
         inner_codes = rng.sample(inv['decodable'], 3) + rng.sample(inv['undecoded_sample'], 1) + ['TRACE_DATA_EXEC']
@@ -346,6 +349,54 @@ def long_windows(res, ctx, rng):
         history.append(mk_event(rng, 1007 + 7 * i, outer, 2, 5))
         check_history(res, history, f'long window ({n} events)')
         res.count('long_window_histories')
+
+
+def huge_windows(res, ctx, rng):
+    """Windows of 2^20 records and more (the top of the scale rungs): a call A stays open while its thread produces the
+    filler, then another call B starts and ends, then A ends.  Built from repeated record objects (H.stretched_events),
+    so the general history checker (which identifies events by identity) is replaced by a linear walk: B's END delivers
+    exactly [B.START, B.END], A's END delivers every record of the stream, in order, by identity."""
+    rungs = [n for i, n in enumerate(ctx.pick(H.SCALE_RUNGS_QUICK, H.SCALE_RUNGS_THOROUGH)) if ctx.mine(i) and n > 200000]
+    for n in rungs:
+        a, b = rng.sample(('BSC_read', 'BSC_write', 'BSC_getpid', 'BSC_sys_close', 'BSC_fsync'), 2)
+        seq = [H.A(a, H.START, (3, 0x1000, 64, 0)), H.A(b, H.START, (4, 0x2000, 32, 0)), H.A(b, H.END, (0, 32, 0, 0)),
+               H.A(a, H.END, (0, 64, 0, 0))]
+        events, _ = H.stretched_events(seq, 1, n, rng, tid=5)
+        case = {'huge_window': n, 'outer': a, 'inner': b}
+        parser = ev.new_parser()
+        got = []
+        InvariantLog.paused = True
+        try:
+            for k, e in enumerate(events):
+                t = parser.feed(e)
+                if t is not None and (e.func_qualifier == 2):
+                    got.append((k, t))
+        except Exception as x:
+            InvariantLog.paused = False
+            res.violation(f'c04-raises-{core.exc_name(x)}', f'window of {n} records: feed raised {x!r} at {core.short_tb(x)}', case)
+            return
+        InvariantLog.paused = False
+        res.case(('huge-window', n, a, b))
+        res.count('events_fed', len(events))
+        res.count('huge_windows')
+        ends = {k: t for k, t in got if k >= len(events) - 2}
+        tb, ta = ends.get(len(events) - 2), ends.get(len(events) - 1)
+        if tb is None or ta is None:
+            res.violation('c04-no-trace-on-end', f'window of {n} records of one thread ({a} open, then {b} START..END, then '
+                          f'the END of {a}): ' + ('the END of the inner call' if tb is None else 'the END of the outer call')
+                          + ' has an open START but produced no trace', case)
+            return
+        kb, ka = list(tb.ktraces), list(ta.ktraces)
+        if len(kb) != 2 or kb[0] is not events[-3] or kb[1] is not events[-2]:
+            res.violation('c04-window', f'window of {n} records: the inner call delivered {len(kb)} events, expected its START '
+                          f'and END', case)
+            return
+        if len(ka) != len(events) or any(x is not y for x, y in zip(ka, events)):
+            j = next((i for i, (x, y) in enumerate(zip(ka, events)) if x is not y), min(len(ka), len(events)))
+            res.violation('c04-window', f'window of {n} records: the outer call delivered {len(ka)} events, the stream holds '
+                          f'{len(events)} of its thread between its START and END (first difference at position {j})', case)
+            return
+        res.count('windows_checked', 2)
 
 
 def front_end_sequences(res, ctx, rng):
@@ -424,6 +475,7 @@ def run(ctx):
     small_scope(res, ctx, rng)
     random_histories(res, ctx, rng)
     long_windows(res, ctx, rng)
+    huge_windows(res, ctx, rng)
     front_end_sequences(res, ctx, rng)
     res.count('invariant_evaluations', InvariantLog.evaluations)
     res.notes['invariant_backend'] = 'icontract.invariant on TracesParser' if monitors.HAVE_ICONTRACT else 'absent'
@@ -440,7 +492,7 @@ def run(ctx):
                         'words are in-domain so that the real decoders are total on the windows they receive']
     for cls in ('class_unmatched_end', 'class_reopened_start', 'class_nested', 'class_crossing',
                 'class_same_code_two_threads', 'class_both_domains_open', 'class_qualifier_all', 'windows_checked',
-                'singles_checked', 'long_window_histories'):
+                'singles_checked', 'long_window_histories', 'huge_windows'):
         res.require(cls)
     if monitors.HAVE_ICONTRACT:
         res.require('invariant_evaluations')
